@@ -107,6 +107,15 @@ def run(tier, seed):
         for op in (("ps", 0, phi, 0), ("psP", 1, False, phi), ("psP", 0, True, phi), ("ps", 1, phi, env.L2)):
             xjobs.append((2, (op,)))
 
+    # a block without any visible mode, and swaps that move nothing
+    for nn in (2, 4):
+        for m in range(0, nn + 1):
+            for g in (False, True):
+                xjobs.append((nn, (("add", "h2all", m, g),)))
+                xjobs.append((nn, (("bs", 0, 1, env.R2, "Rx", 0), ("add", "h2all", m, g), ("ps", 0, env.PH[0], 0))))
+        xjobs.append((nn, (("sw", ((0, 0), (1, 1))),)))
+        xjobs.append((nn, (("bs", 0, 1, env.R2, "Rx", 0), ("sw", ((1, 1),)), ("sw", ((0, 1), (1, 0))))))
+
     def xshard(js):
         a = kernel.Acc()
         for nn, prog in js:
